@@ -67,7 +67,7 @@ PROPS["C04"] = {
 
 PROPS["C17"] = {
     "race": True,
-    "level_text": "PARTIAL. Theorems (Properties/C17.v): for any number of threads, any programs and EVERY schedule, if no operation writes the shared store then each thread gets exactly the results and final object of running alone and the store is unchanged; steps of different threads never conflict. The hypothesis is discharged on the inventory GENERATED from the code by go/ssa on every run: no package variable is stored to or through outside initialisation, its value reaches only regexp methods documented concurrency-safe, and the public read-only queries do not store through receiver or arguments. What the model cannot exhibit (races inside the Go runtime, the standard library and nkeys; writes invisible to SSA such as unsafe/reflection) is only exercised: N goroutines on own objects decoded from the same token text and read-only queries on shared objects under the race detector at GOMAXPROCS 1/2/4/16, results compared with a sequential run.",
+    "level_text": "PARTIAL. Theorems (Properties/C17.v): for any number of threads, any programs and EVERY schedule, if no operation writes the shared store then each thread gets exactly the results and final object of running alone and the store is unchanged; steps of different threads never conflict. The hypothesis is discharged on the inventory GENERATED from the code by go/ssa on every run: no package variable of the two packages - and no package variable of any OTHER package (standard library, nkeys) - is stored to or through outside initialisation, its value reaches only regexp methods documented concurrency-safe, and the public read-only queries do not store through receiver or arguments. What the model cannot exhibit (races inside the Go runtime, the standard library and nkeys; writes invisible to SSA such as unsafe/reflection) is only exercised: N goroutines on own objects decoded from the same token text and read-only queries on shared objects under the race detector at GOMAXPROCS 1/2/4/16, results compared with a sequential run.",
     "level_note": "Trusted: Coq kernel + vm_compute; the go/ssa-based translator tools/globalsgen; the Go race detector and memory model; regexp.Regexp / encoding/json / crypto being safe for concurrent use as documented. A new written package variable breaks the generated obligation; a race or a differing result is a concrete failing schedule.",
     "assumptions": ["standard library and nkeys are safe for concurrent use as documented", "SSA summary sees all stores (no unsafe / reflection / cgo writes)"],
     "technique": "Coq theorem over all schedules + obligation on a go/ssa-generated inventory; race-detector runs as search support",
